@@ -44,7 +44,7 @@ DERIVED_ON_LOAD = {"*": ("area", "volume"), "Core": ("maxAssemNum",),
 TYPED_PARAMS = {"comp": [("pinNum", "ityped")], "block": [("THhotChannelFuelODT", "ftyped"), ("THhotChannel", "ityped"), ("topIndex", "ityped")],
                 "assem": [("THorificeZone", "ityped"), ("multiplicity", "ityped")], "core": [("cyclics", "ityped"), ("coupledIteration", "ityped")]}
 OPS = ["freecoord", "parammany", "bookkeeping", "param", "param", "param", "temp", "ndens", "swap", "rotate", "discharge", "fullcore", "time", "unset",
-       "typed"]
+       "typed", "addnuc"]
 EXCLUDE_KNOWN = {}
 
 
@@ -90,6 +90,9 @@ def strategy(tier):
             # None: one snapshot after the whole program; k: a first snapshot after k operations, the rest of the program, then a
             # second snapshot at the next time node through the SAME open database; both are loaded back afterwards
             "split": st.one_of(st.none(), st.integers(0, 8)),
+            # None: default (simple) cycle settings; list: detailed cycle history with this many burn steps per cycle, so that the
+            # documented negative node index of Database.load ("indexed from EOC backwards like a list") can be exercised
+            "cycles": st.one_of(st.none(), st.lists(st.integers(1, 4), min_size=1, max_size=4)),
         }
     )
 
@@ -150,7 +153,7 @@ def _assigned(o, name):
         return False
 
 
-def apply_program(cs, r, program, out, counts, partial_nodefault=False):
+def apply_program(cs, r, program, out, counts, partial_nodefault=False, cyc_steps=None):
     """Apply the state-change program; every op is resolved modulo the valid targets."""
     import math
 
@@ -230,6 +233,22 @@ def apply_program(cs, r, program, out, counts, partial_nodefault=False):
             nuc = nucs[op["obj2"] % len(nucs)]
             c.setNumberDensity(nuc, c.getNumberDensity(nuc) * op["factor"])
             counts["ndens"] += 1
+        elif kind == "addnuc":
+            # a composition change that introduces a nuclide the component did not hold: any nuclide of the directory, isomeric
+            # states (M, M2, M3, G) over-weighted
+            from armi.nucDirectory import nuclideBases
+
+            comps = [c for c in _objects(r, "comp") if c.getNumberDensities()]
+            if not comps:
+                continue
+            c = comps[op["obj"] % len(comps)]
+            names = sorted(n for n, nb in nuclideBases.byName.items() if nb.a > 0)
+            first = [n for n in names if n.endswith("M")]  # first isomeric state
+            higher = [n for n in names if n[-1] == "G" or n[-2:] in ("M2", "M3", "M4")]  # ground-state marker, higher isomeric states
+            pool = (names, first, higher)[op["k"] % 3] or names
+            nuc = pool[op["obj2"] % len(pool)]
+            counts["addnuc:" + ("any", "first-isomer", "higher-isomer")[op["k"] % 3]] += 1
+            c.setNumberDensity(nuc, 1e-9 * (1 + op["pidx"]))
         elif kind == "swap":
             assems = list(r.core)
             if len(assems) < 2:
@@ -273,6 +292,10 @@ def apply_program(cs, r, program, out, counts, partial_nodefault=False):
         elif kind == "time":
             r.p.cycle = op["cycle"]
             r.p.timeNode = op["node"]
+            if cyc_steps:
+                # inside the declared cycle history: node n of cycle c exists for n <= burn steps of c
+                r.p.cycle = op["cycle"] % len(cyc_steps)
+                r.p.timeNode = op["node"] % (cyc_steps[int(r.p.cycle)] + 1)
             counts["time"] += 1
 
 
@@ -363,7 +386,8 @@ def execute(case):
     out = Out()
     spec = case["spec"]
     text = rg.render(spec)
-    cs, bp, r = rg.build(spec, text=text)
+    cyc_steps = case.get("cycles")
+    cs, bp, r = rg.build(spec, text=text, settings=None if not cyc_steps else {"cycles": [{"cycle length": 10.0, "burn steps": n} for n in cyc_steps]})
     counts = collections.Counter()
     prog, split = case["program"], case.get("split")
     phases = [prog] if split is None else [prog[: split % (len(prog) + 1)], prog[split % (len(prog) + 1):]]
@@ -378,7 +402,7 @@ def execute(case):
         # one or two snapshots through the same open database; each is observed when it is written
         snaps = []
         for phase in phases:
-            apply_program(cs, r, phase, out, counts)
+            apply_program(cs, r, phase, out, counts, cyc_steps=cyc_steps)
             if snaps and (int(r.p.cycle), int(r.p.timeNode)) in [(c_, n_) for c_, n_, _ in snaps]:
                 r.p.timeNode = max(n_ for _, n_, _ in snaps) + 1
             db.writeToDB(r)
@@ -396,6 +420,13 @@ def execute(case):
                 out.fail(("roundtrip/" if len(snaps) == 1 or i == len(snaps) - 1 else "roundtrip-earlier-snapshot/") + _sig_of(x),
                          "loaded != original (snapshot %d of %d): %s" % (i + 1, len(snaps), x))
             clean = clean and not d
+            if not d and cyc_steps and cyc < len(cyc_steps) and node <= cyc_steps[cyc]:
+                # the same snapshot addressed from the end of its cycle
+                neg = node - (cyc_steps[cyc] + 1)
+                out.label("negative-node")
+                rn = db.load(cyc, neg, cs=cs, bp=bp)
+                for x in ob.diff(_normalise(_observe(r1)), _normalise(_observe(rn)), limit=3):
+                    out.fail("negative-node/" + _sig_of(x), "load(%d, %d) != load(%d, %d) with %r burn steps per cycle: %s" % (cyc, neg, cyc, node, cyc_steps, x))
         if clean:
             r2 = db.load(cyc, node, cs=cs, bp=bp)
             c = _normalise(_observe(r2))
@@ -485,10 +516,10 @@ PARTS = [
     Part("roundtrip", execute, strategy=strategy, budget={"quick": 320, "thorough": 30000}, procs={"quick": 8, "thorough": 16},
          rule="Hypothesis: blueprint-built reactor (hex third/full, flats/corners up, Cartesian full/quarter, theta-R-Z, pin lattices, SFP) + program "
               "of <= 8 state changes (typed parameter assignments at core/assembly/block/component level incl. NumPy scalars of narrow "
-              "integer/float types, un-setting, temperature, composition, swaps, rotations, discharge to SFP, third->full conversion, "
+              "integer/float types, un-setting, temperature, composition scaling and new nuclides incl. isomeric states, swaps, rotations, discharge to SFP, third->full conversion, "
               "time) then writeToDB -> load; in half of the cases the program is split and two snapshots are written through the same "
               "open database and both loaded back; oracle observe() equality original (as observed when written) vs loaded, load "
-              "twice, load(write(load)); non-trivial = >= 2 kinds of state change or a pin lattice"),
+              "twice, load(write(load)), and (with a detailed cycle history) the same snapshot addressed by its negative node index; non-trivial = >= 2 kinds of state change or a pin lattice"),
     Part("nodefault_partial", nodefault_execute, strategy=nodefault_strategy, budget={"quick": 24, "thorough": 400}, procs={"quick": 1, "thorough": 4},
          rule="a persistent component parameter without default (buRate, zrFrac) assigned on one or on all components of a class, "
               "then write -> load; the value must come back; non-trivial = assigned on a strict subset (the known-finding shape)"),
